@@ -70,7 +70,7 @@ func alertComparatorHarness(c *CheckCtx, in *Interp) *HarnessResult {
 					same = p.and(same, p.strEq(x, b.f[i].(StringVal)))
 				case *Term:
 					if x.K == KFP {
-						same = p.and(same, p.fpSame(x, b.f[i].(*Term)))
+						same = p.and(same, p.fpCmp("fp.eq", x, b.f[i].(*Term))) // numeric equality (+0 and -0 are one confidence)
 					}
 				}
 			}
